@@ -1,4 +1,5 @@
 #!/bin/bash
+export VERIF_EVIDENCE_DIR=/verif/target/scratch-evidence  # never touch the committed evidence
 # Reverts each `fix:` commit of /repo in the working tree (git apply -R), runs the quick check of the
 # property it repaired, restores the tree. CAUGHT = the original defect is detected again.
 cd /verif
